@@ -159,6 +159,7 @@ class Oracles:
                 self.h_grant_get(r)
         self.check_capacity()
         self.check_held_caps()
+        self.check_discards()
 
     # ---- handlers -----------------------------------------------------------------------------------
     def integrate(self, er, t):
@@ -437,6 +438,33 @@ class Oracles:
             g = self.granted_unused(eid, "p")
             if er.count + g > er.cap:
                 self.violate("C01", "capacity", self.elabel(eid), f"edge {eid}: {er.count} items + {g} granted-unused space reservations > capacity {er.cap}")
+
+    def check_discards(self):
+        """A non-blocking FIRST_AVAILABLE node that counted a discard in this kernel event: no out-edge may have had room (C09; the
+        same observation is C10's 'pushed at that instant if an out-edge has room').  The node probes and drops within one process
+        step, so the edges are still in the state it saw."""
+        seen = self.__dict__.setdefault("_disc_seen", {})
+        for nid, nr in self.nrec.items():
+            if nr.blocking or nr.type not in ("source", "machine", "splitter", "combiner"):
+                continue
+            d = self.stat(nid, "num_item_discarded")
+            if d == seen.get(nid, 0):
+                continue
+            seen[nid] = d
+            if self.pol(nid, "out") != "FIRST_AVAILABLE":
+                continue
+            out_edges = [e.id for e in (self.run.nodes[nid].out_edges or [])]
+            if not all(self.erec[e].type in ("buffer", "fleet") for e in out_edges):
+                continue
+            for e in out_edges:
+                if self.edge_room(e) > 0:
+                    now = self.run.env.now
+                    self.violate("C09", "discarded-although-room", self.nlabel(nid) + "," + self.elabel(e),
+                                 f"non-blocking {nid} counted a discard at {now} although out-edge {e} had room ({self.erec[e].count} items + "
+                                 f"{self.granted_unused(e, 'p')} granted reservations of capacity {self.erec[e].cap})")
+                    self.violate("C10", "discarded-although-room", self.nlabel(nid) + "," + self.elabel(e),
+                                 f"non-blocking {nid} dropped a finished unit at {now} instead of pushing it, although out-edge {e} had room")
+                    break
 
     def check_held_caps(self):
         for nid, nr in self.nrec.items():
